@@ -250,7 +250,9 @@ static void oracle(const Prm &p, const CallData &d, const Out &o, Result &r) {
     if (exactP) {
         r.tag("exact_prec");
         std::vector<Q> rr = resid(A, d.f, d.x0), pr = dmv(PD, rr);
-        bool applies = p.maxiter >= 1 && !conv0 && epsT >= 0 && !(p.solver == 2 && p.damping != 1)
+        // (BiCGStab with check_after enters the loop iff 2*eps > eps - the zero-pass corner is C01's known finding)
+        bool enters = (p.solver == 1 && p.check_after) ? (Q(2) * epsT > epsT) : !conv0;
+        bool applies = p.maxiter >= 1 && enters && !conv0 && epsT >= 0 && !(p.solver == 2 && p.damping != 1)
             && !(p.solver == 0 && dot(rr, pr) == 0) && !(p.solver == 1 && p.left && dot(pr, pr) == 0);
         if (applies && O_C05) {
             if (o.it != 1) r.fail("exact preconditioner: expected exactly one iteration");
@@ -360,6 +362,7 @@ static Mat gen_matrix(Rng &rng, long n, std::string &fam) {
 }
 static void put_prec(Rng &rng, Line &l, const Mat &A) {
     long n = A.n; int k = (int)rng.range(0, 9);
+    if (n == 0) { if (k < 3) l << "id"; else if (k < 6) l << "diag" << std::vector<Q>(); else l << "mat" << from_rows(0, 0, {}); return; }
     Dense D = dense(A);
     if (k < 3) { l << "id"; return; }
     if (k < 5) {                                   // Jacobi: 1 / a_ii (0 where the diagonal is zero: total division)
